@@ -391,6 +391,38 @@ fn main() {
                 }
             }
         }
+        "timerprobe" => {
+            // C06 between two ticks of the trace clock: a timer call d nanoseconds before / at / after a
+            // slot boundary or the deadline; something is (re)transmitted or fails iff d >= 0
+            use std::time::{Duration, Instant};
+            use stun_agent::{RttConfig, StunAttributes, StunClienteBuilder, StunClientEvent, TransportReliability};
+            let m = stun_rs::MessageMethod::try_from(1u16).unwrap();
+            for (name, rel, boundary_ms) in [
+                ("reliable-5s", 0u8, 5000u64), ("rc2-first-slot", 1, 500), ("rc1-deadline", 2, 500 * 16), ("default-first-slot", 3, 500),
+            ] {
+                for dn in [-1_000_000i64, -1000, -999, -400, -1, 0, 1, 400, 999, 1000] {
+                    let r = match rel {
+                        0 => TransportReliability::Reliable(Duration::from_secs(5)),
+                        1 => TransportReliability::Unreliable(RttConfig { rto: Duration::from_millis(500), granularity: Duration::from_millis(1), rm: 16, rc: 2 }),
+                        2 => TransportReliability::Unreliable(RttConfig { rto: Duration::from_millis(500), granularity: Duration::from_millis(1), rm: 16, rc: 1 }),
+                        _ => TransportReliability::Unreliable(RttConfig::default()),
+                    };
+                    let mut client = StunClienteBuilder::new(r).build().expect("client");
+                    let base = Instant::now();
+                    let sent = client.send_request(m, StunAttributes::default(), vec![0u8; 256], base).is_ok();
+                    let _ = client.events();
+                    let at = base + Duration::from_millis(boundary_ms);
+                    let t = if dn >= 0 { at + Duration::from_nanos(dn as u64) } else { at - Duration::from_nanos((-dn) as u64) };
+                    client.on_timeout(t);
+                    let evs = client.events();
+                    let fired = evs.iter().any(|e| matches!(e, StunClientEvent::OutputPacket(_) | StunClientEvent::TransactionFailed(_)));
+                    let pending = client.verif_snapshot().transactions.len();
+                    writeln!(tf, "{}", json!({"op":"timer","tr":ntr,"prop":"C06","case":name,"dn":dn,"sent":sent,"fired":fired,"pending":pending})).unwrap();
+                    nlines += 1;
+                    ntr += 1;
+                }
+            }
+        }
         "tinyprobe" => {
             // C15 below the trace clock: a first response after 1 ns .. 999 ns (not zero), a second one
             // after an ordinary delay, and the RTO the third request starts with
